@@ -228,6 +228,8 @@ def c19_jobs(Job, tier):
             js += free_jobs(Job, cfg) + opus_jobs(Job, cfg) + write_span_jobs(Job, cfg)
             js += [j for j in hxc_jobs(Job, cfg) if "header" in j.name]
             js += [j for j in crc_jobs(Job, cfg) if j.tier == "quick"]
+            js += [j for j in space_jobs(Job, cfg) if "add_initial_gap" in j.name] + [j for j in destdir_jobs(Job, cfg) if "make_name" in j.name]
+            js += [j for j in mfm_decoder_jobs(Job, cfg) if "mfm_read_byte" in j.name] + [j for j in bitstream_jobs(Job, cfg) if "mfm_read_byte" in j.name]
     return js
 
 
@@ -262,7 +264,7 @@ def c16_extra(Job, tier):
 
 
 # ---- C17 extra: Opus volume extents ----------------------------------------------------------------------------
-OPUS_GROUP = ["VolumeLocation_set_next_sector", "VolumeLocation_len", "VolumeLocation_start_sector"]
+OPUS_GROUP = ["VolumeLocation_set_next_sector", "VolumeLocation_len", "VolumeLocation_start_sector", "opus_volume_extents"]
 
 
 def opus_jobs(Job, cfg=CFG_NDEBUG, tier="quick"):
@@ -270,7 +272,8 @@ def opus_jobs(Job, cfg=CFG_NDEBUG, tier="quick"):
         return Job("D_%s_%s" % (name, cfg[0]), "harness/dfs_opus.c", entry, enforce=enforce, defines=list(cfg[1]),
                    extract=ext(OPUS_GROUP), tier=tier, **kw)
     return [J("volume_set_next_sector", "h_set_next", ["VolumeLocation_set_next_sector"]),
-            J("volume_len", "h_len", ["VolumeLocation_len"]), J("volume_start_sector", "h_start", ["VolumeLocation_start_sector"])]
+            J("volume_len", "h_len", ["VolumeLocation_len"]), J("volume_start_sector", "h_start", ["VolumeLocation_start_sector"]),
+            J("opus_volume_extents", "h_extents", ["opus_volume_extents"], replace=["VolumeLocation_set_next_sector", "VolumeLocation_start_sector"], loops=True, solver="portfolio")]
 
 
 def c17_extra(Job, tier):
@@ -395,7 +398,7 @@ def adapter_jobs(Job, cfg=CFG_NDEBUG, tier="quick"):
 
 
 def c05_extra(Job, tier):
-    return adapter_jobs(Job)
+    return adapter_jobs(Job) + copyhfe_jobs(Job)
 
 
 def c06_extra(Job, tier):            # noqa: F811
@@ -531,3 +534,10 @@ def hints_jobs(Job, cfg=CFG_NDEBUG, tier="quick"):
 def spans_jobs(Job, cfg=CFG_NDEBUG, tier="quick"):
     return [Job("D_extract_unused_spans_%s" % cfg[0], "harness/dfs_spans.c", "h_spans", enforce=["extract_unused_spans"], replace=["sector_count"], loops=True,
                 defines=list(cfg[1]), extract=ext(["sector_count", "extract_unused_spans"]), tier=tier, cover=True, solver="portfolio")]
+
+
+def copyhfe_jobs(Job, cfg=CFG_NDEBUG, tier="quick"):
+    g = ["hfe_opcodes", "is_hfe3_opcode", "copy_hfe"]
+    return [Job("D_is_hfe3_opcode_%s" % cfg[0], "harness/dfs_copyhfe.c", "h_is_opcode", enforce=["is_hfe3_opcode"], defines=list(cfg[1]), extract=ext(g), tier=tier),
+            Job("D_copy_hfe_v1_%s" % cfg[0], "harness/dfs_copyhfe.c", "h_copy_hfe", enforce=["copy_hfe"], replace=["is_hfe3_opcode"], loops=True,
+                defines=list(cfg[1]), extract=ext(g), tier=tier, cover=True, solver="portfolio")]
